@@ -36,7 +36,7 @@ CLAIMED = {
          "Trusted: Lean kernel; transcriptions tied by the harness; peak heap is argued from the availability check, not measured per case.",
          "DESIGN.md §7 C10"),
  "C12": ("Lean 4 theorems over an interleaving model of channel id allocation and a model of the reader's routing loop, parameterised by structural facts regenerated from conn.go/channel.go + concurrent runs of the real Conn against a multiplexing peer",
-         "Partial by nature (data-race freedom and the scheduler are runtime behaviour). Proved: for every number of threads and every schedule of their shared-memory accesses the ids handed out by the atomic fetch-and-add allocation are pairwise distinct (with the non-atomic load/add of the old code a 4-step schedule hands out a duplicate); after routing any interleaving of packets the state of channel c is that of processing exactly the sub-sequence with header channel c, in order; packets for unregistered ids yield one connection error each and change nothing; the facts the model rests on (one atomic RMW for the id, every access of the channel map under its lock, header-only packets delivered with the type NewChannel asserts) are regenerated from the source on every run. Outgoing ids/packet numbers are C01's theorems. The harness runs concurrent NewChannel/receive/send against a multiplexing peer and checks ids, per-channel sequences, error counts and headers; built with -race it is the supporting evidence for race freedom. Defects found and repaired: PROTACK type mismatch (231f70d), non-atomic id allocation and unlocked map access (ab106bf).",
+         "Partial by nature (data-race freedom and the scheduler are runtime behaviour). Proved: for every number of threads and every schedule of their shared-memory accesses the ids handed out by the atomic fetch-and-add allocation are pairwise distinct (with the non-atomic load/add of the old code a 4-step schedule hands out a duplicate); after routing any interleaving of packets the state of channel c is that of processing exactly the sub-sequence with header channel c, in order; packets for unregistered ids yield one connection error each and change nothing; the facts the model rests on (one atomic RMW for the id, every access of the channel map under its lock, header-only packets delivered with the type NewChannel asserts) are regenerated from the source on every run. Outgoing ids/packet numbers are C01's theorems. The harness runs concurrent NewChannel/receive/send against a multiplexing peer and checks ids, per-channel sequences, error counts and headers; the thorough tier runs the harness built with the race detector (GORACE=halt_on_error=1; every case in its own process), so a reported data race is a violation with the case as failing input — supporting evidence for race freedom, not a proof. Defects found and repaired: PROTACK type mismatch (231f70d), non-atomic id allocation and unlocked map access (ab106bf).",
          "Trusted: Lean kernel; the extractor's structural facts; Go's sync/atomic and RWMutex; the schedules explored on the real code are whatever the scheduler produces; data-race freedom itself is not a theorem.",
          "DESIGN.md §7 C12"),
  "C13": ("Lean 4 theorems over small state machines of the select of NextPackage, the per-packet context check and the close/lock protocol, parameterised by structural facts regenerated from channel.go/conn.go (go/ast) + scenario scripts on the real code under a watchdog",
